@@ -1,9 +1,12 @@
+pub mod bounded;
+pub mod builder;
 pub mod codec;
 pub mod core;
 pub mod cutoff;
 pub mod delay;
 pub mod desync;
 pub mod drop;
+pub mod hashorder;
 pub mod lifecycle_check;
 pub mod malformed;
 pub mod recovery;
@@ -26,6 +29,8 @@ pub fn judge_for(prop: &str) -> JudgeFn {
         "C10" => cutoff::judge,
         "C11" => delay::judge,
         "C12" => lifecycle_check::judge,
+        "C16" => builder::misuse_judge,
+        "C18" => bounded::judge,
         _ => core::no_judge,
     }
 }
